@@ -77,6 +77,7 @@ pub mod verif {
 pub mod pipeline {
     use crate::data::{DisplayConfig, Record, Row};
     pub use crate::errors::{ErrorReporter, QueryContainer, TermErrorReporter};
+    use crate::errors::ErrorBuilder;
     use crate::filter;
     use crate::lang::*;
     use crate::operator;
@@ -150,6 +151,23 @@ pub mod pipeline {
             pipeline: &QueryContainer,
         ) -> Result<Box<dyn operator::AggregateOperator>, TypeError> {
             let mut agg_functions = Vec::with_capacity(op.aggregate_functions.len());
+
+            // the accumulators of a group are kept by column name: two columns with one name
+            // would share an accumulator (and a cell), so every column needs a name of its own
+            let mut names: Vec<&String> = op.key_col_headers.iter().collect();
+            for (name, function) in &op.aggregate_functions {
+                if names.contains(&name) {
+                    let e = TypeError::DuplicateColumn { name: name.clone() };
+                    pipeline
+                        .report_error_for(&e)
+                        .with_code_pointer(function, "this column has the same name as an earlier one")
+                        .with_resolution("Give one of them a name of its own with `as`")
+                        .with_resolution(format!("example: {} as other{}", "count(x > 1)", name))
+                        .send_report();
+                    return Err(e);
+                }
+                names.push(name);
+            }
 
             for agg in op.aggregate_functions {
                 let operator_function = agg.1.type_check(pipeline)?;
